@@ -101,6 +101,7 @@ Blame ==
   @@ "oe.cancel.await_ref" :> {"C04"} @@ "oe.cancel.try_halt" :> {"C04"}
   @@ "blk.timer"  :> {"C10"}
   @@ "exit.timer" :> {"C10"}
+  @@ "exit.timer.afterrestart" :> {"C10", "C07"}
   @@ "tf.state"   :> {"C10", "C07"}
   @@ "tf.due"     :> {"C10"}
   @@ "tf.k"       :> {"C10"}
